@@ -146,6 +146,10 @@ class Selection:
         elif k == "dict":
             for _, c in n["items"]:
                 self.walk(c)
+        elif k == "dsclass":
+            # every member the class HAS is evaluated on instantiation; an inherited member that is overridden is not
+            for c in gen.dsclass_members(self.by, n).values():
+                self.walk(c)
         elif k == "template":
             for c in n.get("params", {}).values():
                 self.walk(c)
@@ -260,7 +264,7 @@ class C06(HistoryProperty):
     NONTRIVIAL_MEASURE = "history_with_armed_faults"
 
     def gen_case(self, rng, tier):
-        cfg = gen.swarm_cfg(rng, off=("shape_change", "alloptions", "dangling", "tmpl_preset"), on=("dispatch", "overloads", "opt_default_expr"))
+        cfg = gen.swarm_cfg(rng, off=("shape_change", "alloptions", "dangling", "tmpl_preset"), on=("dispatch", "overloads", "opt_default_expr", "dsclass"))
         if rng.random() < 0.4:  # a share of the programs without option-rewriting nodes at all (the simplest setting)
             cfg["kinds"] = [k for k in cfg["kinds"] if k not in ("withopts", "derive", "map")]
             cfg["presets"] = cfg["default_presets"] = False
